@@ -142,6 +142,37 @@ fn fan_multis() -> Vec<(String, P)> {
     out
 }
 
+/// diagrams that are monogamous except (possibly) at one node whose in- or out-degree is k, reached through one wide
+/// hyperedge (multiplicity k) or through k hyperedges; with that node on or off the interface. For the degree and
+/// monogamy predicates (every other node is fine, so the answer hinges on the one node).
+pub fn degree_probes(kmax: usize) -> Vec<(String, P)> {
+    let mut out: Vec<(String, P)> = vec![];
+    let mut add = |name: String, nodes: usize, edges: Vec<PEdge<u8>>, s: Vec<usize>, t: Vec<usize>, out: &mut Vec<(String, P)>| {
+        let f = P { nodes: vec![0; nodes], edges, s, t };
+        for (i, g) in numberings(&f).into_iter().enumerate() {
+            out.push((format!("{}#{}", name, i), g));
+        }
+    };
+    for k in 1..=kmax {
+        for on_iface in [false, true] {
+            // one hyperedge 0 -> [1; k]: node 1 has in-degree k
+            add(format!("wide-target({},{})", k, on_iface), 2, vec![edge(0, vec![0], vec![1; k])], vec![0], if on_iface { vec![1] } else { vec![] }, &mut out);
+            // one hyperedge [1; k] -> 0: node 1 has out-degree k
+            add(format!("wide-source({},{})", k, on_iface), 2, vec![edge(0, vec![1; k], vec![0])], if on_iface { vec![1] } else { vec![] }, vec![0], &mut out);
+            // k hyperedges i -> z
+            add(format!("many-into-one({},{})", k, on_iface), k + 1, (0..k).map(|i| edge(0, vec![i], vec![k])).collect(), (0..k).collect(), if on_iface { vec![k] } else { vec![] }, &mut out);
+            // k hyperedges z -> i
+            add(format!("one-into-many({},{})", k, on_iface), k + 1, (0..k).map(|i| edge(0, vec![k], vec![i])).collect(), if on_iface { vec![k] } else { vec![] }, (0..k).collect(), &mut out);
+            // in-degree k-1 and also an input; out-degree k-1 and also an output
+            if k >= 2 {
+                add(format!("wide-target-and-input({},{})", k, on_iface), 2, vec![edge(0, vec![0], vec![1; k - 1])], vec![0, 1], if on_iface { vec![1] } else { vec![] }, &mut out);
+                add(format!("wide-source-and-output({},{})", k, on_iface), 2, vec![edge(0, vec![1; k - 1], vec![0])], if on_iface { vec![1] } else { vec![] }, vec![0, 1], &mut out);
+            }
+        }
+    }
+    out
+}
+
 /// programs over the fixed-arity test signature of C16 (sub 2, neg 3, copy 4, const 6, discard 7, add 0)
 pub fn programs(kmax: usize) -> Vec<(String, P)> {
     let ks: Vec<usize> = (1..=kmax).collect();
@@ -160,6 +191,48 @@ pub fn programs_at(ks: &[usize], gaps: bool) -> Vec<(String, P)> {
     for &k in ks {
         // k parallel negations (one layer with k operations)
         add(format!("parallel-neg({})", k), 2 * k, (0..k).map(|i| edge(3, vec![i], vec![k + i])).collect(), (0..k).collect(), (k..2 * k).collect(), &mut out);
+        // one layer of k operations with different labels and arities (neg, copy, discard, const, sub in turn): a
+        // backend that lists the layer in another order must still pair every operation with its own label
+        {
+            let mut e: Vec<PEdge<u8>> = vec![];
+            let (mut s, mut t) = (vec![], vec![]);
+            let mut nn = 0usize;
+            for i in 0..k {
+                match i % 5 {
+                    0 => {
+                        e.push(edge(3, vec![nn], vec![nn + 1]));
+                        s.push(nn);
+                        t.push(nn + 1);
+                        nn += 2;
+                    }
+                    1 => {
+                        e.push(edge(4, vec![nn], vec![nn + 1, nn + 2]));
+                        s.push(nn);
+                        t.push(nn + 2);
+                        t.push(nn + 1);
+                        nn += 3;
+                    }
+                    2 => {
+                        e.push(edge(7, vec![nn], vec![]));
+                        s.push(nn);
+                        nn += 1;
+                    }
+                    3 => {
+                        e.push(edge(6, vec![], vec![nn]));
+                        t.push(nn);
+                        nn += 1;
+                    }
+                    _ => {
+                        e.push(edge(2, vec![nn, nn + 1], vec![nn + 2]));
+                        s.push(nn + 1);
+                        s.push(nn);
+                        t.push(nn + 2);
+                        nn += 3;
+                    }
+                }
+            }
+            add(format!("mixed-layer({})", k), nn, e, s, t, &mut out);
+        }
         // alternating neg / copy+discard in one layer
         // chain of k negations
         add(format!("chain-neg({})", k), k + 1, (0..k).map(|i| edge(3, vec![i], vec![i + 1])).collect(), vec![0], vec![k], &mut out);
